@@ -474,7 +474,23 @@ func (t *tokenizer) readExponent(w io.ByteWriter) (int, error) {
 		}
 	}
 
-	return t.readDigits(c, w)
+	return t.readPlainDigits(c, w)
+}
+
+// readPlainDigits reads a run of digits in which, unlike in the integer and
+// fraction parts of a number, '_' separators are not allowed.
+func (t *tokenizer) readPlainDigits(c int, w io.ByteWriter) (int, error) {
+	for isDigit(c) {
+		if err := w.WriteByte(byte(c)); err != nil {
+			return 0, err
+		}
+
+		var err error
+		if c, err = t.read(); err != nil {
+			return 0, err
+		}
+	}
+	return c, nil
 }
 
 func (t *tokenizer) readDigits(c int, w io.ByteWriter) (int, error) {
